@@ -96,7 +96,8 @@ def layout_form(prefix, tsuf, rsuf, style, target_first, ref_kind, with_cells=Tr
                  "parameters": "randomize=true seed=" + {"plain": f"{R}", "adv": f"{R}*2", "case": f"{R}+{R}", "uni": f"{R}"}[style], "instance::xattr": f"{R}", "body::kb:flag": f"{R}", "bind::odk:x": f"{R} * 2"}
         rq = Row("q", f"select_one {lst}", "refq", cells)
         # an external select (external_choices sheet) next to it: its filter lives in input/@query and needs current() like any predicate
-        extras = [Row("q", "select_one_external ext", "refx", {"label": "x", "choice_filter": f"state={R} and cf = {R}"})]
+        extras = [Row("q", "select_one_external ext", "refx", {"label": "x", "choice_filter": f"state={R} and cf = {R}"}),
+                  Row("q", "text", "refap", {"label": "ap", "appearance": f"w3 custom('f', 'matches', 'col', {R})"})]
     elif ref_kind == "calc":
         rq = Row("q", "calculate", "refq", {"calculation": f"{R} + indexed-repeat({R}, /data/x, 1) + ${{last-saved#{tname}}}",
                                             "relevant": (f'instance("{lst}")/root/item[name = {R}]/label != "" and pulldata("f", "a", "b", {R})' if style == "adv" else  # either quote style delimits an XPath string
@@ -465,6 +466,13 @@ def check_form(ctx, form, klass, sig):
                 a = p.attr_dict(ctl[e.path])
                 if h[6:] in a:
                     J.judge("body-attr", e, v, a[h[6:]])
+            if h == "appearance" and "${" in v and e.path in ctl and r.kind == "q":
+                # a question's appearance may carry a reference (search('file', 'matches', 'col', ${q})): resolved like in any other control attribute
+                a = p.attr_dict(ctl[e.path])
+                if "appearance" in a:
+                    J.judge("appearance", e, v, a["appearance"])
+                else:
+                    ctx.viol("appearance:attribute-missing", f"{e.path}: appearance {v!r} written, control has no appearance attribute", J.wit(cell="appearance"))
         # repeat_count bare reference -> jr:count
         rc = r.cells.get("repeat_count")
         if r.kind == "repeat" and rc and re.fullmatch(r"\$\{[^}]+\}", rc.strip()) and e.path in repeats:
